@@ -107,6 +107,8 @@ struct Ctx<'a> {
     world: &'a World,
     fs: &'a BTreeMap<String, FileSnap>,
     forced: BTreeSet<String>,
+    /// assume that every checksummed target that must be rebuilt changes
+    pessimistic: bool,
     memo: BTreeMap<String, (bool, String)>,
     eval_memo: BTreeMap<String, Result<Built, EvalErr>>,
     stack: Vec<String>,
@@ -124,6 +126,9 @@ impl<'a> Ctx<'a> {
         }
         if self.world.is_user_file(d) {
             return self.world.files.get(d).map(|f| strip_noise(&f.bytes));
+        }
+        if self.pessimistic && self.is_target(d) && !self.plain_target(d) && self.needs_rebuild(d, 0) {
+            return Some(b"<assumed changed>".to_vec());
         }
         if self.is_target(d) && self.must(d).0 {
             return match self.world.eval_memo(d, &mut self.eval_memo) {
@@ -196,6 +201,29 @@ impl<'a> Ctx<'a> {
         (false, String::new())
     }
 
+    /// must run itself, or something below it (by record) must
+    fn needs_rebuild(&mut self, d: &str, depth: usize) -> bool {
+        if depth > 12 || !self.is_target(d) {
+            return false;
+        }
+        if self.must(d).0 {
+            return true;
+        }
+        let (deps, seq): (Vec<String>, u64) = self
+            .m
+            .seen
+            .get(d)
+            .map(|s| (s.deps.iter().map(|(x, _)| x.clone()).collect(), s.built_seq))
+            .unwrap_or_default();
+        // a plain dependency rebuilt since (to the same bytes) makes d uncertain too
+        if deps.iter().any(|x| {
+            self.plain_target(x) && self.m.seen.get(x).map_or(false, |sx| sx.built_seq > seq)
+        }) {
+            return true;
+        }
+        deps.iter().any(|x| self.needs_rebuild(x, depth + 1))
+    }
+
     fn plain_target(&self, d: &str) -> bool {
         self.is_target(d) && !self.m.seen.get(d).map_or(false, |s| s.csum)
             && !declared(self.world, d, &|_| None).map_or(false, |x| x.4)
@@ -212,6 +240,17 @@ impl SeenModel {
         requested: &[String],
         forced: bool,
     ) -> Expect {
+        self.expect_opts(world, fs_before, requested, forced, false)
+    }
+
+    pub fn expect_opts(
+        &self,
+        world: &World,
+        fs_before: &BTreeMap<String, FileSnap>,
+        requested: &[String],
+        forced: bool,
+        pessimistic: bool,
+    ) -> Expect {
         let mut cx = Ctx {
             m: self,
             world,
@@ -221,6 +260,7 @@ impl SeenModel {
             } else {
                 BTreeSet::new()
             },
+            pessimistic,
             memo: BTreeMap::new(),
             eval_memo: BTreeMap::new(),
             stack: Vec::new(),
